@@ -191,6 +191,12 @@ def gen_plan(prop, seed, tier):
             if faulty:
                 op["tol"] = rng.choice(["neg", "none", "bad:str"])
             ops.append(op)
+    if cfg["twin"] and rng.random() < 0.8:
+        # both differently refined twins are cleaned at the end: they must arrive at identical knots and control points
+        ctol = rng.choice(["0", "0", "default"])
+        first = rng.randrange(2)
+        ops.append({"op": "clean", "t": first, "tol": ctol, "repeat": False})
+        ops.append({"op": "clean", "t": 1 - first, "tol": ctol, "repeat": rng.random() < 0.3})
     return {"property": prop, "engine": "ref", "seed": seed, "tier": tier, "config": cfg, "ops": ops}
 
 
